@@ -50,7 +50,7 @@ PROPS = {
         assumptions=["Admissible = no insert on a pending (sender, sequence) key with a changed priority - stronger than the literal precondition (unique pending keys), which holds for every history and is proved insufficient (keys_unique_always, literal_precondition_insufficient). It is discharged for the wired application by admission_admissible / mempool_wired under the external assumption ACovered (CometBFT re-checks everything the app pool holds after each commit); without re-check the replacement is reachable through the real app (stat finding.fullapp_*, Props/C19.md). NoMin (no pending priority = MinInt64) for completeness and CheckTx priority < MaxInt64-3 for the class clause are proved necessary and hold in the app because TxFeeSkipper returns 42 (model_constants_from_source ties the class table, the 42 and the app.go wiring to the source). Interleaving a live iterator with Insert/Remove is modelled: safety holds, completeness does not (live_remove_current_ends_iteration, live_reinsert_current_panics); baseapp SelectBy does not interleave"],
     ),
     "C02": dict(
-        lean_modules=["PalomaModel.Props.C02", "PalomaModel.Props.Consts.C02"], gen=["Consts.lean", "Claims.lean", "Auth.lean", "ConstTable.lean"],
+        lean_modules=["PalomaModel.Props.C02", "PalomaModel.Props.Consts.C02", "PalomaModel.Props.Translated.C02"], gen=["Consts.lean", "Claims.lean", "Auth.lean", "ConstTable.lean", "Translated.lean"],
         harness_test="TestC02",
         n_quick=150, n_thorough=2000, thorough_seeds=8, timeout_quick=900,
         # every observable of the oracle driver (cursor, observed flags, vote lists, minted total) is the property's own subject
